@@ -229,6 +229,6 @@ def run(rep, tier, pool, variants=("shipped",)):
 
 def classify(name, v):
     # quadratic (not worse) on nested subprocess openers whose innermost closer does not match: see known_findings.json
-    if name in ("invalid-subproc-mismatch", "invalid-subproc-mismatch-mixed") and v["exponent"] <= 2.2:
+    if name in ("invalid-subproc-mismatch", "invalid-subproc-mismatch-mixed", "invalid-subproc-nested-groups", "invalid-subproc-nested-groups-macro") and v["exponent"] <= 2.2:
         return "KF-C18-subproc-group-rescan"
     return None
